@@ -424,4 +424,76 @@ Section RefineStep.
         apply mk_R; auto.
   Qed.
 
+  (* the statement in the form of the task: replies equal, relation kept *)
+  Theorem step_refines ds s c :
+    R ds s -> no_session_call c ->
+    let '(ds', r1) := step ds c in
+    let '(s', r2) := s_step s c in
+    r1 = r2 /\ R ds' s'.
+  Proof.
+    intros [<- Hinv] Hc. pose proof (step_agree ds c Hinv Hc) as H.
+    destruct (step ds c) as [ds' r1]. destruct (s_step (abs ds) c) as [s' r2]. exact H.
+  Qed.
+
+  (* ---------------------------------------------------------------- *)
+  (* histories *)
+
+  Theorem run_refines calls : forall ds s,
+    R ds s -> Forall no_session_call calls ->
+    let '(ds', rs) := run ds calls in
+    let '(s', rs') := s_run s calls in
+    rs = rs' /\ R ds' s'.
+  Proof.
+    induction calls as [|c t IH]; intros ds s HR Hall.
+    - cbn [Driver.run s_run]. split; [reflexivity|exact HR].
+    - inversion Hall as [|? ? Hc Ht]; subst. cbn [Driver.run s_run].
+      pose proof (step_refines ds s c HR Hc) as H1.
+      destruct (step ds c) as [ds1 r1]. destruct (s_step s c) as [s1 r2].
+      destruct H1 as [-> HR1].
+      specialize (IH ds1 s1 HR1 Ht).
+      destruct (run ds1 t) as [ds2 rs]. destruct (s_run s1 t) as [s2 rs'].
+      destruct IH as [-> HR2]. split; [reflexivity|exact HR2].
+  Qed.
+
+  (* C01: from the empty database, every history of calls of the reference
+     API gets the same replies from the implementation model and from the
+     sequential reference model, and the contents agree at the end (hence,
+     every prefix being a history, after every call) *)
+  Theorem refines calls :
+    Forall no_session_call calls ->
+    let '(ds, rs) := run d_init calls in
+    let '(s, rs') := s_run s_init calls in
+    rs = rs' /\ abs ds = s.
+  Proof.
+    intro Hall. pose proof (run_refines calls d_init s_init R_init Hall) as H.
+    destruct (run d_init calls) as [ds rs]. destruct (s_run s_init calls) as [s rs'].
+    destruct H as [H1 [H2 _]]. auto.
+  Qed.
+
+  (* the same, spelled out for every prefix: after every call the replies so
+     far and the contents agree *)
+  Theorem refines_prefix calls k :
+    Forall no_session_call calls ->
+    let '(ds, rs) := run d_init (firstn k calls) in
+    let '(s, rs') := s_run s_init (firstn k calls) in
+    rs = rs' /\ abs ds = s.
+  Proof.
+    intro Hall. apply refines. revert k. induction Hall as [|c t Hc Ht IH]; intro k.
+    - destruct k; constructor.
+    - destruct k; cbn [firstn]; constructor; auto.
+  Qed.
+
+  (* the invariants hold in every reachable state *)
+  Theorem reachable_inv calls :
+    Forall no_session_call calls -> inv (fst (run d_init calls)).
+  Proof.
+    intro Hall. pose proof (run_refines calls d_init s_init R_init Hall) as H.
+    destruct (run d_init calls) as [ds rs]. destruct (s_run s_init calls) as [s rs'].
+    destruct H as [_ [_ H]]. exact H.
+  Qed.
+
 End RefineStep.
+
+Print Assumptions step_refines.
+Print Assumptions refines.
+
